@@ -74,7 +74,12 @@ _MENU = {}
 
 def menu(tier):
     if tier not in _MENU:
-        _MENU[tier] = ref.menu(tier)
+        m = ref.menu(tier)
+        seen = set()
+        for e in m:
+            e['rep'] = e['cls'] not in seen  # first entry of its class: the class representative
+            seen.add(e['cls'])
+        _MENU[tier] = m
     return _MENU[tier]
 
 
@@ -561,7 +566,15 @@ class Pair:
         for ctx in ('ord', 'ff'):
             seen_ser = {}
             sps = spellings(name, entry, tier, ctx)
+            light = set()
+            if q:
+                # quick: every pair gets {canonical, upper case, trailing comment}; the valid pairs and one representative
+                # value per class get every single deviation
+                ups = [x[0] for x in sps if x[1].startswith('case-upper@') and x[1] != 'case-upper@name']
+                light = {'canon', ups[-1] if ups else None, next((x[0] for x in sps if x[1] == 'comment@trail'), None)}
             for id_, dev, sp in sps:
+                if q and id_ not in light and not (entry.get('rep') or self.base.get(ctx, {}).get('v') is True):
+                    continue
                 full = (not q) or id_ in ('canon', 'prio.0', 'trail.0')
                 o = self.parsed(ctx, id_, dev, sp, seen_ser, full)
                 if id_ == 'canon':
